@@ -1464,7 +1464,8 @@ pub fn stages(tier: Tier) -> Vec<Stage> {
             _ => 4,
         }
     };
-    out.sort_by_key(prio);
+    // ... and the stages on the large context (two orders of magnitude dearer per history) last
+    out.sort_by_key(|s| (if s.fill == 2 || s.post == BIG_FILL { 10 } else { 0 }) + prio(s));
     out
 }
 
